@@ -400,7 +400,16 @@ theorem witness_empty_chunk_size_rejected :
     (feed { payload := some (.chunked .size 0) } [13, 10, 13, 10]).2.dead = some (.chunk .invalidSize) := by
   decide
 
-/-! ## nothing after a reject (connection level) -/
+/-! ## nothing after a reject (connection level)
+
+Not claimed at connection level: "the set of requests *served* is the same for every
+segmentation".  That statement is false of the current dispatcher when the bytes completing a
+body-carrying request are read together with a later request whose body is still incomplete
+(DESIGN §6 F1c: `send_response` consults the payload slot of the later request and closes;
+replay in docs/C01.md, O-C).  It is a defect of the dispatcher's pipelining logic (model B,
+properties C02/C03), outside `Model/H1Conn.lean`, whose events are single reads each followed by
+one complete `poll_request` + response cycle.  What *is* proved for every event history is the
+property's last clause: -/
 
 /-- **C01_nothing_after_reject.**  For every history of reads and EOFs: once the decode loop has
 hit a parse error, the connection is closed, the last response written is the 400/431, and no
